@@ -418,7 +418,21 @@ class _Generator(Generator):
             ''
         ]
 
-        decode_lines = [
+        decode_extension_lines = []
+
+        if type_.additions_index_to_member is not None:
+            # Extension bit. Only root alternatives are supported.
+            encode_lines.insert(0, 'encoder_append_bool(encoder_p, false);')
+            decode_extension_lines = [
+                'if (decoder_read_bool(decoder_p)) {',
+                '    decoder_abort(decoder_p, EBADCHOICE);',
+                '',
+                '    return;',
+                '}',
+                ''
+            ]
+
+        decode_lines = decode_extension_lines + [
             '{} = ({})decoder_read_non_negative_binary_integer(decoder_p, {});'.format(
                 unique_choice,
                 type_name,
